@@ -1,0 +1,68 @@
+//! Observation hooks used by the external runtime monitors in `/verif`.
+//!
+//! Only compiled with the cargo feature `verif-hooks` (off by default). The hooks
+//! do not change what the crate computes: they let a monitor pin the seed that a
+//! new evaluation context would otherwise take from the operating system, and they
+//! record, per thread, every draw made by `random(n)` and every `resetRandom`.
+
+use std::cell::{Cell, RefCell};
+
+/// One event in the per-thread log of random-number activity
+#[derive(Debug, Clone, Copy, PartialEq, Eq)]
+pub enum DrawEvent {
+    /// A new evaluation context (one per iterator) was created with this seed
+    NewContext {
+        /// Seed of the generator
+        seed: u64,
+    },
+    /// `resetRandom;` was executed
+    Reset,
+    /// One call to the generator made by `random(bound)`, with the value it returned
+    Draw {
+        /// The evaluated argument of `random`
+        bound: i64,
+        /// The value handed back to the expression evaluator
+        value: i64,
+    },
+}
+
+thread_local! {
+    static SEED_OVERRIDE: Cell<Option<u64>> = const { Cell::new(None) };
+    static DRAW_LOG: RefCell<Vec<DrawEvent>> = const { RefCell::new(Vec::new()) };
+}
+
+/// Pin (or with `None` release) the seed used by evaluation contexts created on this thread
+pub fn set_seed_override(seed: Option<u64>) {
+    SEED_OVERRIDE.with(|s| s.set(seed));
+}
+
+/// Take and clear this thread's log of random-number activity
+pub fn take_draw_log() -> Vec<DrawEvent> {
+    DRAW_LOG.with(|l| std::mem::take(&mut *l.borrow_mut()))
+}
+
+pub(crate) fn seed_override() -> Option<u64> {
+    SEED_OVERRIDE.with(|s| s.get())
+}
+
+pub(crate) fn log(event: DrawEvent) {
+    DRAW_LOG.with(|l| l.borrow_mut().push(event));
+}
+
+/// Stands in for the evaluation context inside `random(n)`: forwards the draw to the
+/// real context unchanged (same range expression, same generator) and logs its result.
+pub(crate) struct LoggedContext<'a>(pub(crate) &'a crate::eval_context::EvalContext, pub(crate) i64);
+
+impl<'a> LoggedContext<'a> {
+    pub(crate) fn random<R: rand::distributions::uniform::SampleRange<i64>>(
+        &self,
+        range: R,
+    ) -> i64 {
+        let value = self.0.random(range);
+        log(DrawEvent::Draw {
+            bound: self.1,
+            value,
+        });
+        value
+    }
+}
